@@ -157,6 +157,10 @@ PENDING = "not reached yet in the build (units for this property are not registe
 
 
 def main():
+    bad = props.check_registration(VERIF)
+    if bad:
+        print("unit clauses tagged with a property whose check does not run the unit:", bad)
+        sys.exit(1)
     props_all = [json.loads(l)["id"] for l in open(os.path.join(VERIF, "properties.jsonl"))]
     checks = []
     for p in props_all:
